@@ -100,6 +100,8 @@ theorem deposit_keeps_nav (p p' : Pf) (k : Nat) (amt : R) (recv : Option Nat) (n
   | some a =>
     rw [hk] at h
     dsimp only at h
+    have hb0 : (n == 0) = false := by simpa using hn0
+    simp only [hb0, Bool.false_eq_true, if_false] at h
     cases ha : a.depositWithdraw amt recv with
     | none => rw [ha] at h; simp at h
     | some a' =>
@@ -117,6 +119,14 @@ theorem deposit_keeps_nav (p p' : Pf) (k : Nat) (amt : R) (recv : Option Nat) (n
         ((Pf.totalValue { accounts := p.accounts.set k a', units := p.units, staticNav := p.staticNav }) / n) = n
       have htv' : Pf.totalValue { accounts := p.accounts.set k a', units := p.units, staticNav := p.staticNav } ≠ 0 := htv
       field_simp
+
+/-- after a wipe-out (unit net value 0) a deposit or withdrawal is refused and nothing is booked (the original code booked the
+cash and then raised ZeroDivisionError; repaired) -/
+theorem deposit_refused_at_zero_nav (p : Pf) (k : Nat) (amt : R) (recv : Option Nat) (hn : p.nav = some 0) :
+    p.depositWithdraw k amt recv = none := by
+  unfold Pf.depositWithdraw
+  rw [hn]
+  cases p.accounts[k]? <;> simp
 
 /-- financing and repayment change neither units nor (C01 `finance_equity_neutral`) value -/
 theorem finance_keeps_units (p : Pf) (k : Nat) (amt : R) :
